@@ -22,5 +22,6 @@ func moreGens() []struct {
 		{"GenSolver.v", genSolver},
 		{"GenAccept.v", genAccept},
 		{"GenAssemble.v", genAssemble},
+		{"GenPcg.v", genPcg},
 	}, extraGens...)
 }
